@@ -334,7 +334,26 @@ func genBody(r *rnd, prefix string, depth int) BodyM {
 		na += 2 + r.n(3)
 	}
 	for i := 0; i < na; i++ {
-		b.Attrs = append(b.Attrs, AttrM{Name: fmt.Sprintf("%sa%d", prefix, i), Expr: g.anyExpr(depth)})
+		a := AttrM{Name: fmt.Sprintf("%sa%d", prefix, i), Expr: g.anyExpr(depth)}
+		switch r.n(8) {
+		case 0:
+			// a list written element by element (a JSON array in JSON syntax)
+			for k := 2 + r.n(3); k > 0; k-- {
+				a.JList = append(a.JList, g.anyExpr(depth-1))
+			}
+			a.Expr = "[" + strings.Join(a.JList, ", ") + "]"
+		case 1:
+			var parts []string
+			for k := 1 + r.n(3); k > 0; k-- {
+				key := fmt.Sprintf("k%d", k)
+				val := g.anyExpr(depth - 1)
+				a.JKeys = append(a.JKeys, key)
+				a.JVals = append(a.JVals, val)
+				parts = append(parts, key+" = "+val)
+			}
+			a.Expr = "{ " + strings.Join(parts, ", ") + " }"
+		}
+		b.Attrs = append(b.Attrs, a)
 	}
 	nb := r.n(4)
 	for i := 0; i < nb; i++ {
@@ -569,7 +588,7 @@ var opKinds = []string{
 	"decode", "decode", "partial_decode",
 	"expand_decode", "expand_decode", "shared_expand_decode", "shared_expand_decode",
 	"dec_vars", "implied_type", "expand_vars",
-	"gohcl", "gohcl_expr", "static", "merge_content", "spec_misc",
+	"gohcl", "gohcl_expr", "static", "static", "merge_content", "spec_misc", "gen_decode", "gen_decode",
 }
 
 // genCase generates a complete case from a run seed.  profile selects the
@@ -578,7 +597,7 @@ var opKinds = []string{
 // case runs its concurrent phase before anything else has used the library in
 // this process (see runCase), so that first uses of process-global state
 // (package-level caches and lazily initialised tables) happen concurrently.
-var coldKinds = []string{"decode", "decode", "partial_decode", "expand_decode", "shared_expand_decode", "gohcl", "gohcl", "dec_vars", "expand_vars", "spec_misc", "merge_content", "implied_type"}
+var coldKinds = []string{"gen_decode", "decode", "decode", "partial_decode", "expand_decode", "shared_expand_decode", "gohcl", "gohcl", "dec_vars", "expand_vars", "spec_misc", "merge_content", "implied_type"}
 
 func genCase(seed uint64, profile string, deep, cold bool) *Case {
 	r := &rnd{s: zzsim.Mix(seed, 1)}
@@ -759,7 +778,22 @@ func jexpr(e string) string { return jstr("${" + e + "}") }
 func renderJSON(b BodyM, arr int) string {
 	var parts []string
 	for _, a := range b.Attrs {
-		parts = append(parts, jstr(a.Name)+": "+jexpr(a.Expr))
+		switch {
+		case len(a.JList) > 0:
+			var els []string
+			for _, e := range a.JList {
+				els = append(els, jexpr(e))
+			}
+			parts = append(parts, jstr(a.Name)+": ["+strings.Join(els, ", ")+"]")
+		case len(a.JKeys) > 0:
+			var els []string
+			for i, k := range a.JKeys {
+				els = append(els, jstr(k)+": "+jexpr(a.JVals[i]))
+			}
+			parts = append(parts, jstr(a.Name)+": {"+strings.Join(els, ", ")+"}")
+		default:
+			parts = append(parts, jstr(a.Name)+": "+jexpr(a.Expr))
+		}
 	}
 	// group static blocks by type, dynamic blocks under "dynamic"
 	var order []string
